@@ -92,6 +92,8 @@ def _load(key: str) -> bytes:
             data = docs.build(fmt, src[2] * 10 + i)[0]
             members.append({"name": f"d{i}/doc{i}{docs.BUILDERS[fmt][3]}", "data": data, "type": "file"})
         return archives.build(src[1], members)
+    if src[0] == "synth":
+        return _synthetic(src[1])
     if src[0] == "htmlcs":
         cs = src[1]
         body = "qb00001z caf\u00e9 \u05e9\u05dc\u05d5\u05dd qb00002z"
@@ -101,6 +103,46 @@ def _load(key: str) -> bytes:
             raw = b"qb00001z caf\xe9 \xf9\xec\xe5\xed qb00002z"
         return b'<html><head><meta http-equiv="Content-Type" content="text/html; charset=' + cs.encode() + b'"><title>t</title></head><body><p>' + raw + b"</p></body></html>"
     raise ValueError(src)
+
+
+SYNTH_EXT = {"rtf-big-picture": ".rtf", "mbox-raw-8bit-headers": ".mbox", "7z-huge-file-count": ".7z", "7z-huge-stream-count": ".7z", "zip-huge-entry-count": ".zip"}
+
+
+def _synthetic(name: str) -> bytes:
+    """Hand-written inputs for one purpose each (used by single checks, not part of all_sources())."""
+    if name == "rtf-big-picture":
+        # one picture of ~4.6 MiB (more than any fixture holds; serialisers that work in slices see more than one slice) and a small one
+        rng = random.Random("rtf-big-picture")
+        big = b"\x89PNG\r\n\x1a\n" + rng.randbytes(4_800_000)
+        small = b"\x89PNG\r\n\x1a\n" + rng.randbytes(2_000)
+        pics = "".join("{\\pict\\pngblip\\picw10\\pich10 " + d.hex() + "}" for d in (big, small))
+        return ("{\\rtf1\\ansi\\ansicpg1252\\deff0{\\fonttbl{\\f0 Helvetica;}}\\pard qb00001z big picture\\par " + pics + "\\pard qb00002z\\par}").encode("ascii")
+    if name == "mbox-raw-8bit-headers":
+        # raw 8-bit bytes (unencoded UTF-8 / Latin-1) in every header a reader copies into its result
+        def msg(i, enc):
+            h = ["From sender%d@example.org Mon Jan  1 0%d:00:00 2024" % (i, i), "From: Gr\u00fc\u00dfe %d <sender%d@example.org>" % (i, i), "To: Empf\u00e4nger <rcpt@example.org>",
+                 "Cc: \u00c7a <cc@example.org>", "Reply-To: R\u00e9ponse <reply@example.org>", "Subject: qs0000%dz Gr\u00fc\u00dfe aus K\u00f6ln" % i, "Date: Mon, 01 Jan 2024 0%d:00:00 +0000" % i,
+                 "Message-ID: <gr\u00fc\u00dfe.%d@example.org>" % i, "In-Reply-To: <gr\u00fc\u00dfe.0@example.org>", "References: <gr\u00fc\u00dfe.0@example.org>",
+                 "MIME-Version: 1.0", "Content-Type: text/plain; charset=utf-8", "Content-Transfer-Encoding: 8bit", "", "qb0000%dz K\u00f6rper" % i, ""]
+            return "\n".join(h).encode(enc)
+        return msg(1, "utf-8") + b"\n" + msg(2, "latin-1") + b"\n"
+    if name in ("7z-huge-file-count", "7z-huge-stream-count"):
+        # a well-formed 7z (signature, version, both CRCs valid) whose header declares 2**60 files / pack streams: the reader's
+        # own tables cannot be allocated (MemoryError inside read_archive itself, not inside a member extractor)
+        import struct
+        import zlib
+        from vlib.gen.sevenz import num
+        if name == "7z-huge-file-count":
+            header = b"\x01" + b"\x05" + num(1 << 60) + b"\x00" + b"\x00"
+        else:
+            header = b"\x01" + b"\x04" + b"\x06" + num(0) + num(1 << 60) + b"\x00" + b"\x00" + b"\x00"
+        start = struct.pack("<QQI", 0, len(header), zlib.crc32(header) & 0xFFFFFFFF)
+        return b"7z\xbc\xaf\x27\x1c" + b"\x00\x04" + struct.pack("<I", zlib.crc32(start) & 0xFFFFFFFF) + start + header
+    if name == "zip-huge-entry-count":
+        import struct
+        # an empty ZIP whose end-of-central-directory record claims 65535 entries
+        return b"PK\x05\x06" + struct.pack("<HHHHIIH", 0, 0, 0xFFFF, 0xFFFF, 0, 0, 0)
+    raise ValueError(name)
 
 
 def load(src) -> bytes:
@@ -120,6 +162,8 @@ def source_ext(src) -> str:
         return archives.ext_of(src[1])
     if src[0] == "htmlcs":
         return ".html"
+    if src[0] == "synth":
+        return SYNTH_EXT[src[1]]
     return ".bin"
 
 
